@@ -167,7 +167,10 @@ class Verifier(Engine):
                    paths=0, status="ok")
         self.functions.append(rec)
         # stale loop keys
-        headers = [h for h, _ in fsrc.loops]
+        headers = []
+        for h_, _ in fsrc.loops:
+            n_ = sum(1 for x in headers if x == h_ or x.startswith(h_ + " #"))
+            headers.append(h_ if n_ == 0 else "%s #%d" % (h_, n_ + 1))
         for k in c.loops:
             if k not in headers:
                 raise CheckerError("stale loop contract %r for %s (loops now: %s)" % (k, c.func, headers))
@@ -199,6 +202,14 @@ class Verifier(Engine):
             st.assume(typ(r) == cid("list"))
             st.assume(h.llen(r) == 0)
             env[gname] = tV(V.ref(r))
+        if c.opts.get("block"):
+            # the locals of the enclosing function that the block reads / writes: arbitrary values constrained by `requires`
+            for vn, vk in c.opts.get("vars", {}).items():
+                if vn not in env:
+                    t = z3.Const("v_" + vn, KIND_SORT[vk])
+                    env[vn] = T(vk, t)
+                    if vk == "V":
+                        st.assume(z3.Implies(is_ref(t), z3.And(V.rv(t) >= 0, V.rv(t) < h.alloc)))
         entry = St(dict(env), h.copy(), [])
         fx.entry = entry
         for text, f in self.spec_conj(c.requires, st, None, fx):
@@ -223,13 +234,6 @@ class Verifier(Engine):
             body = [found[0]]
             rec["block"] = c.opts["block"]
             rec["dropped"] = "everything outside the block (treated as an arbitrary pre-state satisfying the block's requires)"
-            for vn, vk in c.opts.get("vars", {}).items():
-                if vn not in st.env:
-                    t = z3.Const("v_" + vn, KIND_SORT[vk])
-                    st.env[vn] = T(vk, t)
-                    entry.env[vn] = T(vk, t)
-                    if vk == "V":
-                        st.assume(z3.Implies(is_ref(t), z3.And(V.rv(t) >= 0, V.rv(t) < h.alloc)))
             for text, f in self.spec_conj(c.opts.get("block_requires", []), st, None, fx):
                 st.assume(f)
             entry.pc = list(st.pc)
@@ -269,8 +273,10 @@ class Verifier(Engine):
     def needs_frame_check(self, c):
         """the frame (`assigns`) of a contract is what its CALLERS assume; it is verified on the body whenever some other
         function under contract (or ghost client) calls it, or the sidecar asks for it (frame=True)"""
-        if c.opts.get("value_mode") or "*" in c.assigns or c.opts.get("block"):
+        if c.opts.get("value_mode") or "*" in c.assigns:
             return False
+        if c.opts.get("block"):
+            return bool(c.opts.get("summary"))
         if c.opts.get("frame"):
             return True
         if not hasattr(self, "_callee_names"):
@@ -309,7 +315,12 @@ class Verifier(Engine):
                         val = T(c.result, self.coerce(val, c.result, EC(st, spec=True)))
                 else:
                     val = T(c.result, self.coerce(val, c.result, EC(st, spec=True)))
-        post_st = St(dict(entry.env), st.heap, st.pc, ghost=dict(st.ghost, result=val))
+        post_env = dict(entry.env)
+        if c.opts.get("block"):
+            for vn in c.opts.get("vars", {}):
+                if vn in st.env:
+                    post_env[vn] = st.env[vn]          # a block contract speaks about the locals after the block (old(x): before)
+        post_st = St(post_env, st.heap, st.pc, ghost=dict(st.ghost, result=val))
         # ghost / locals are not visible in ensures; parameters keep their ENTRY values (Python rebinding of a
         # parameter inside the body does not change what the caller passed)
         for text, f in self.spec_conj(c.ensures, post_st, entry, fx):
@@ -390,7 +401,71 @@ class Verifier(Engine):
             st.assume(n)
         return outs, st
 
+    def block_summary(self, s, fx):
+        c = fx.contract
+        if c is None or isinstance(s, (ast.Expr, ast.Pass)):
+            return None
+        hdr = None
+        for c2 in self.reg.contracts.values():
+            if c2 is c or c2.file != c.file or c2.func != c.func or not c2.opts.get("summary") or not c2.opts.get("block"):
+                continue
+            hdr = hdr or stmt_header(s)
+            if c2.opts["block"] == hdr:
+                return c2
+        return None
+
+    def apply_summary(self, c2, s, st, fx):
+        """the statement is replaced by its (separately verified) block contract: check requires, havoc the assigned locals and
+        the declared frame, assume ensures; exceptional exits as declared"""
+        def escapes(node, in_loop):
+            for ch in ast.iter_child_nodes(node):
+                if isinstance(ch, ast.Return) or (isinstance(ch, (ast.Break, ast.Continue)) and not in_loop):
+                    return True
+                if isinstance(ch, (ast.FunctionDef, ast.AsyncFunctionDef, ast.Lambda)):
+                    continue
+                if escapes(ch, in_loop or isinstance(ch, (ast.For, ast.While, ast.AsyncFor))):
+                    return True
+            return False
+        if escapes(s, isinstance(s, (ast.For, ast.While, ast.AsyncFor))):
+            raise OutOfSubset("summarised block contains return / break / continue that leaves it (line %d)" % s.lineno)
+        pre = St(dict(st.env), st.heap.copy(), list(st.pc), ghost=dict(st.ghost))
+        sub_fx = fx
+        for text, f in self.spec_conj(c2.requires, St(dict(st.env), st.heap, st.pc, ghost=dict(st.ghost)), fx.entry, sub_fx):
+            self.emit(fx, "pre-block", s.lineno, st, f, note="block %r requires %s" % (c2.opts["block"][:40], text))
+        outs = []
+        for cls_name, cond in c2.raises.items():
+            s_r = st.copy()
+            condz = self.spec_conj([cond], St(dict(st.env), st.heap, st.pc, ghost=dict(st.ghost)), fx.entry, sub_fx)[0][1]
+            s_r.assume(condz)
+            self.havoc_heap(s_r, c2.assigns or [], s_r.env, s.lineno)
+            if cls_name == "Exception":
+                ccls = fresh("exc_cls", IntS)
+                s_r.assume(sub(ccls, cid("Exception")))
+                exc = Exc(ccls, None, s.lineno, "exception escaping the summarised block")
+            else:
+                exc = Exc(cid(cls_name), None, s.lineno, "%s from the summarised block" % cls_name)
+            for text, f in self.spec_conj(c2.raises_ensures, s_r, pre, sub_fx):
+                s_r.assume(f)
+            s_r.line = s.lineno
+            outs.append((RAISE, exc, s_r))
+        if c2.assigns:
+            self.havoc_heap(st, c2.assigns, st.env, s.lineno)
+        for n in sorted(assigned_names([s])):
+            k = st.env[n].k if n in st.env and st.env[n].k in KIND_SORT else "V"
+            k = c2.opts.get("vars", {}).get(n, k)
+            t = fresh("blk_" + n, KIND_SORT[k])
+            st.env[n] = T(k, t)
+            if k == "V":
+                st.assume(z3.Implies(is_ref(t), z3.And(V.rv(t) >= 0, V.rv(t) < st.heap.alloc)))
+        for text, f in self.spec_conj(c2.ensures, St(dict(st.env), st.heap, st.pc, ghost=dict(st.ghost)), pre, sub_fx):
+            st.assume(f)
+        fx.used_summaries = getattr(fx, "used_summaries", set()) | {c2.key}
+        return outs + [(NORMAL, None, st)]
+
     def run_stmt(self, s, st, fx):
+        c2 = self.block_summary(s, fx)
+        if c2 is not None:
+            return self.apply_summary(c2, s, st, fx)
         m = getattr(self, "st_" + type(s).__name__, None)
         if m is None:
             raise OutOfSubset("statement %s at line %d" % (type(s).__name__, s.lineno))
@@ -686,6 +761,9 @@ class Verifier(Engine):
     # ------------------------------------------------------------------ loops
     def loop_spec(self, node, fx):
         hdr = source.loop_header(node)
+        same = [ln for h_, ln in fx.fsrc.loops if h_ == hdr]
+        if len(same) > 1 and same.index(node.lineno) > 0:
+            hdr = "%s #%d" % (hdr, same.index(node.lineno) + 1)     # repeated header: the n-th loop is keyed "<header> #n"
         sp = fx.contract.loops.get(hdr)
         if sp is None:
             raise CheckerError("loop without contract in %s: %r (line %d)" % (fx.fsrc.qualname, hdr, node.lineno))
